@@ -42,6 +42,9 @@ struct Scenario {
     play_at: usize,
     /// the tape is inserted with the autoload snapshot (LOAD "" already typed) and fast loading enabled
     load: bool,
+    /// instead of the ROM's own life: a program that, once per frame, programs an AY register, reads it back, reads the
+    /// Kempston port and a keyboard half-row (with the EAR bit) and logs all of that in RAM
+    probe: bool,
 }
 
 fn scenario(r: &mut Rng, k: u64, frames: usize) -> Scenario {
@@ -69,13 +72,18 @@ fn scenario(r: &mut Rng, k: u64, frames: usize) -> Scenario {
     // load scenarios: the tape either stays stopped until late (the ROM's request is served by the fast-load trap) or
     // plays from the start (the ROM loads in real time)
     let play_at = if load { if k % 8 >= 4 { 0 } else { 4 * (10 + r.below(10) as usize) } } else { 4 * (1 + r.below(10) as usize) };
-    Scenario { m128, tape: tap_bytes(&blocks), script, frames, play_at, load }
+    Scenario { m128, tape: tap_bytes(&blocks), script, frames, play_at, load, probe: !load && (k / 4) % 2 == 1 }
 }
 
-fn build(s: &Scenario, asset: &str, sound: bool) -> Emu {
+const PROBE: [u8; 42] = [
+    0xF3, 0x21, 0x00, 0x90, 0x1E, 0x00, 0x7B, 0xE6, 0x0F, 0x01, 0xFD, 0xFF, 0xED, 0x79, 0x06, 0xBF, 0x7B, 0xC6, 0x55, 0xED, 0x79, 0x06,
+    0xFF, 0xED, 0x78, 0x77, 0x2C, 0xDB, 0x1F, 0x77, 0x2C, 0x3E, 0x7F, 0xDB, 0xFE, 0x77, 0x2C, 0x1C, 0xFB, 0x76, 0x18, 0xDC,
+];
+
+fn build(s: &Scenario, asset: &str, sound: bool, ay: bool) -> Emu {
     let mut cfg = EmuCfg::new(s.m128);
     cfg.sound = sound;
-    cfg.ay = true;
+    cfg.ay = ay;
     cfg.kempston = true;
     cfg.autoload = s.load;
     cfg.fastload = s.load;
@@ -101,6 +109,21 @@ fn build(s: &Scenario, asset: &str, sound: bool) -> Emu {
         }
     };
     emu.load_tape(Tape::Tap(a)).unwrap();
+    if s.probe {
+        use crate::files::*;
+        let mut banks: Vec<Vec<u8>> = (0..8).map(|_| vec![0u8; 16384]).collect();
+        banks[2][..PROBE.len()].copy_from_slice(&PROBE);
+        let d = MachineDesc {
+            m128: s.m128,
+            cpu: CpuDesc { af: 0, bc: 0, de: 0, hl: 0, af_: 0, bc_: 0, de_: 0, hl_: 0, ix: 0, iy: 0x5C3A, sp: 0xBFF0, pc: 0x8000,
+                           i: 0x3F, r: 0, iff1: false, iff2: false, im: 1 },
+            border: 2,
+            latch: 0x10,
+            banks,
+        };
+        let bytes = if s.m128 { sna128(&d) } else { sna48(&d) };
+        emu.load_snapshot(rustzx_core::host::Snapshot::Sna(VAsset::new(bytes))).unwrap();
+    }
     emu
 }
 
@@ -109,7 +132,7 @@ fn drive(s: &Scenario, driving: &str, r: &mut Rng) -> (Vec<(usize, u64)>, u64, u
     let mut stuck = false;
     let keys: Vec<ZXKey> = ZXKey::iter().collect();
     let asset = match driving { "chunk1" | "chunk7" | "file" | "gzip" => driving, _ => "mem" };
-    let mut emu = build(s, asset, driving != "soundoff");
+    let mut emu = build(s, asset, driving != "soundoff", driving != "ayoff");
     if driving == "soundoff" {
         emu.set_sound(false);
     }
@@ -231,7 +254,7 @@ pub fn run(args: &Args) {
     let base = args.num("base", 0);
     for k in base..base + scenarios {
         let s = scenario(&mut r, k, frames);
-        for driving in ["one", "one", "n", "n", "max1", "bp", "bp", "bp1", "bpn", "bpn", "mix", "mix", "soundoff", "nodrain", "chunk1", "chunk7", "file", "gzip"] {
+        for driving in ["one", "one", "n", "n", "max1", "bp", "bp", "bp1", "bpn", "bpn", "mix", "mix", "soundoff", "ayoff", "nodrain", "chunk1", "chunk7", "file", "gzip"] {
             if std::env::var("VH_DEBUG").is_ok() { eprintln!("scenario {k} driving {driving}"); }
             let (d, audio, audio_n, stuck) = drive(&s, driving, &mut r);
             let digests: Vec<Value> = d.iter().map(|(f, h)| json!([f, split(*h)])).collect();
